@@ -96,6 +96,12 @@ def parseInput (sk dk s d nonce rid a1 a2 : String) : Option Input := do
     let resp ← fromHex a2
     pure ⟨sk', dk', ⟨s, d, nonce, rid⟩, cd, resp, 0⟩
 
+/-- one step of `hseq`: kind,fault,src,dst,nonce,rid,calldata,resp -/
+def parseStep (dk : String) (st : String) : Option (Input × String) :=
+  match st.splitOn "," with
+  | [sk, fault, s, d, nonce, rid, a1, a2] => (parseInput sk dk s d nonce rid a1 a2).map fun i => (i, fault)
+  | _ => none
+
 def handle (op : String) (args : List String) (impl : String) : Option Verdict :=
   match op, args with
   | "relay", [sk, dk, s, d, nonce, rid, a1, a2] => some <| Id.run do
@@ -156,6 +162,19 @@ def handle (op : String) (args : List String) (impl : String) : Option Verdict :
       | none => false
     let mx := pl.foldl (fun a i => max a (itemLen i)) 0
     return ⟨showOut o, ok, s!"msg:{typ}>{dk}:{if wf then "fits" else "nofit"}:{outClass o}:maxfield{lenBucket mx}"⟩
+  -- ONE ETHDepositHandler over a sequence of deposits of different resources, the handler lookup failing at scripted steps
+  | "hseq", [dk, steps] => some <| Id.run do
+    let some parsed := (items steps ";").mapM (parseStep dk) | return bad
+    let model := parsed.map fun (i, fault) => if fault = "ok" then showOut (relay i) else "err:src"
+    let outs := impl.splitOn "|"
+    let ok := outs.length == parsed.length && (parsed.zip outs).all fun ((i, fault), o) =>
+      if fault = "ok" then
+        match parseOut o with
+        | some x => decide (P01 i x)
+        | none => false
+      else o == "err:src" || o == "panic:src"   -- a failed lookup never yields a proposal
+    let faults := (parsed.filter fun p => p.2 ≠ "ok").length
+    return ⟨"|".intercalate model, ok, s!"hseq:steps={min parsed.length 6}:faults={min faults 3}"⟩
   -- ONE listener + handler object, the same deposit handled k times: every answer is the history-free one
   | "seq", [mode, k, sk, dk, s, d, nonce, rid, a1, a2] => some <| Id.run do
     let some k := k.toNat? | return bad
